@@ -3,6 +3,7 @@ import numpy as np
 from hypothesis import strategies as st
 
 from .. import core, gen, build, obs, lpkit
+from .. import timeline as tl
 from ..core import Outcome, is_err
 
 ID = "C01"
@@ -34,6 +35,36 @@ def _strategy(draw):
         spec["split"] = draw(st.one_of(st.none(), st.none(), st.sampled_from(SPLITS)))
         gen.rename_nodes(draw, spec, collide=True)
         return spec
+    if shape == 3:
+        # split build whose intervals all look alike (same length, no windows) while the dispatch factors of a
+        # Plant / CHP towards its fuel node change over time (fuel efficiency, running / start consumption as
+        # interval data)
+        m = draw(st.sampled_from([3, 4, 6]))
+        k = draw(st.integers(2, 3))
+        T = m * k
+        g = {"start": draw(st.sampled_from(["2021-01-30 00:00", "2021-06-15 00:00"])), "T": T, "freq": "h", "mtu": "h",
+             "tz": draw(st.sampled_from([None, "UTC"]))}
+        chp = draw(st.booleans())
+        def series(vals):
+            return {"iv": [[-50 if j == 0 else j * m, (j + 1) * m if j < k - 1 else T + 50, v] for j, v in enumerate(vals)]}
+        effs = draw(st.lists(st.sampled_from([1.0, 0.5, 0.75, 0.25]), min_size=k, max_size=k))
+        u = {"type": "chp" if chp else "plant", "name": "unit", "nodes": ["np", "nh", "nf"] if chp else ["np", "nf"],
+             "price": None, "min_cap": 1.0, "max_cap": 4.0, "extra_costs": 0.0, "wacc": 0.0,
+             "start_costs": draw(st.sampled_from([0.0, 1.0])), "running_costs": 0.0,
+             "fuel_efficiency": series(effs) if len(set(effs)) > 1 else effs[0],
+             "consumption_if_on": draw(st.sampled_from([0.0, 0.25, series([0.25 * (j % 2) for j in range(k)])])),
+             "start_fuel": draw(st.sampled_from([0.0, 1.0, series([1.0 * ((j + 1) % 2) for j in range(k)])]))}
+        if chp:
+            u["conversion_factor_power_heat"] = 0.5
+            u["max_share_heat"] = 1.0
+        prices = {"ppow": draw(gen.price_series(T)), "pheat": draw(gen.price_series(T)), "pfuel": [draw(st.sampled_from([0.5, 1.0, 2.0]))] * T, "phi": [20.0] * T}
+        assets = [u,
+                  {"type": "simple", "name": "sell_p", "nodes": ["np"], "price": "ppow", "min_cap": -32.0, "max_cap": 0.0, "extra_costs": 0.0, "wacc": 0.0},
+                  {"type": "simple", "name": "buy_p", "nodes": ["np"], "price": "phi", "min_cap": 0.0, "max_cap": 32.0, "extra_costs": 0.0, "wacc": 0.0},
+                  {"type": "simple", "name": "buy_f", "nodes": ["nf"], "price": "pfuel", "min_cap": 0.0, "max_cap": 64.0, "extra_costs": 0.0, "wacc": 0.0}]
+        if chp:
+            assets.append({"type": "simple", "name": "sell_h", "nodes": ["nh"], "price": "pheat", "min_cap": -32.0, "max_cap": 0.0, "extra_costs": 0.0, "wacc": 0.0})
+        return {"grid": g, "prices": prices, "assets": assets, "split": "%dh" % m}
     spec = draw(gen.portfolios_all(classes=CLASSES, max_T=draw(st.sampled_from([8, 12, 14]))))
     spec["split"] = draw(st.one_of(st.none(), st.none(), st.sampled_from(SPLITS)))
     if shape == 1:
@@ -46,6 +77,24 @@ def _strategy(draw):
             o[0], o[1] = t0, t0 + 1
         spec["assets"].append(ob)
         spec["split"] = draw(st.sampled_from(SPLITS))
+    if shape == 2 and spec["grid"]["T"] >= 4:
+        # a node that comes to life only later: everything attached to it starts at step k, the first interval(s)
+        # of a split build do not know the node at all
+        T = spec["grid"]["T"]
+        k = draw(st.integers(2, T - 1))
+        n0 = build.all_nodes(spec)[0]
+        cq = 8.0 / float(tl.dt(spec["grid"])[0])
+        spec["prices"]["p_late_b"] = [draw(st.sampled_from([1.0, 2.0, 6.0]))] * T
+        spec["prices"]["p_late_s"] = draw(gen.price_series(T))
+        spec["assets"] += [
+            {"type": "transport", "name": "to_late", "nodes": [n0, "n_late"], "min_cap": 0.0, "max_cap": cq,
+             "efficiency": draw(st.sampled_from([1.0, 0.5, 0.75])), "costs_const": 0.0, "wacc": 0.0, "start": k, "end": None},
+            {"type": "simple", "name": "late_sell", "nodes": ["n_late"], "price": "p_late_s", "min_cap": -cq, "max_cap": 0.0,
+             "extra_costs": 0.0, "wacc": 0.0, "start": k, "end": None},
+            {"type": "simple", "name": "late_buy", "nodes": ["n_late"], "price": "p_late_b", "min_cap": 0.0,
+             "max_cap": draw(st.sampled_from([0.0, 1.0])) / float(tl.dt(spec["grid"])[0]),
+             "extra_costs": 0.0, "wacc": 0.0, "start": draw(st.integers(k, T - 1)), "end": None}]
+        spec["split"] = draw(st.sampled_from(SPLITS + [None]))
     if draw(st.integers(0, 9)) < 3:
         gen.rename_nodes(draw, spec)
     return spec
